@@ -4,19 +4,19 @@ A = "github.com/agglayer/aggkit/aggsender."
 OBLIGATIONS = []
 
 
-def _add(k, nblk, mask, retry, grow, faults, tiers, prefix=0, reach=("end", "second height"), cmask=0, maxsize=0):
+def _add(k, nblk, mask, retry, grow, faults, tiers, prefix=0, reach=("end", "second height"), cmask=0, maxsize=0, flow=0):
     pre = []
     p = prefix
     while p:
         pre.append({1: "epoch", 2: "status tick"}[p % 3])
         p //= 3
     OBLIGATIONS.append(dict(
-        name="C02 send loop, %d events%s, L2 of %d block(s) (bridges in blocks %s), %s, retry %s%s" % (
-            k, (" (first: " + ", ".join(pre) + ")") if pre else "", nblk, [i + 1 for i in range(nblk) if mask >> i & 1],
+        name="C02 %ssend loop, %d events%s, L2 of %d block(s) (bridges in blocks %s), %s, retry %s%s" % (
+            "aggchain-prover flow, " if flow else "", k, (" (first: " + ", ".join(pre) + ")") if pre else "", nblk, [i + 1 for i in range(nblk) if mask >> i & 1],
             "one more block visible at every poll" if grow else "all blocks visible from the start",
             "immediately after an error" if retry else "at the next epoch", ", Agglayer calls may fail" if faults else "")
         + (", claims in blocks %s" % [i + 1 for i in range(nblk) if cmask >> i & 1] if cmask else "") + (", certificate size limit %d bytes" % maxsize if maxsize else ""),
-        harness=A + "ZZVerif_C02_Loop", params={"K": k, "NBLK": nblk, "MASK": mask, "RETRY": retry, "GROW": grow, "FAULTS": faults, "PREFIX": prefix, "CMASK": cmask, "MAXSIZE": maxsize},
+        harness=A + "ZZVerif_C02_Loop", params={"K": k, "NBLK": nblk, "MASK": mask, "RETRY": retry, "GROW": grow, "FAULTS": faults, "PREFIX": prefix, "CMASK": cmask, "MAXSIZE": maxsize, "FLOW": flow},
         tiers=tiers, reach=list(reach), time_limit_s=5000, max_paths=400000,
         bounds="every order of %d events (epoch / status tick); at every poll of an open certificate the Agglayer leaves it open, settles it or rejects it; "
                "all ids, exit roots, network id, creation times symbolic" % k))
@@ -30,6 +30,11 @@ _add(3, 3, 0b101, 1, 1, 0, Q)
 _add(3, 2, 0b11, 1, 1, 1, Q, reach=("end",))
 _add(3, 3, 0b110, 1, 0, 0, Q, cmask=0b011, maxsize=3100)   # size limit cuts the first range after a claim-only first block
 _add(3, 3, 0b101, 0, 1, 0, Q, cmask=0b110)
+_add(3, 3, 0b111, 1, 0, 0, Q, flow=1, reach=("end", "second height", "replacement"))                       # aggchain-prover flow: proofs may end before the requested block; retries resend the same range
+_add(3, 3, 0b011, 0, 1, 0, Q, flow=1, cmask=0b100)
+_add(4, 4, 0b1111, 1, 1, 0, T, prefix=1, flow=1)
+_add(4, 4, 0b1111, 1, 1, 0, T, prefix=2, flow=1)
+_add(4, 3, 0b101, 0, 0, 0, T, prefix=1, flow=1, cmask=0b010)
 _add(4, 4, 0b1010, 1, 0, 0, T, prefix=1, cmask=0b0111, maxsize=3100)
 _add(4, 4, 0b1010, 1, 0, 0, T, prefix=2, cmask=0b0111, maxsize=3100)
 for pfx in (1, 2):
